@@ -94,17 +94,21 @@ def replay_guard(ctx, rule, kinds=("items", "clears"), monotone=False):
             unguarded = [ab for ab, (g, td) in zip(ss, res) if not g]
             table_derived = [ab for ab, (g, td) in zip(ss, res) if g and td]
             refiltered = any("compaction::filter" in A.cname(t) or "CompactionFilter" in A.cname(t) for b, t in fn.calls())
-            ok = not unguarded and not (monotone and table_derived and not refiltered)
+            ok = not unguarded
             inst = "replay-skips-records-already-persisted" if kind == "items" else "replayed-clear-spares-newer-tables"
             if ok:
                 detail = "every replayed %s is applied only if it is newer than what the tree has persisted" % ("record" if kind == "items" else "clear")
-            elif unguarded and kind == "items":
+            elif kind == "items":
                 detail = "journal replay re-applies records the tree has already persisted (%d apply site(s) with no persisted-seqno guard): a stale copy ends up in a memtable in front of newer table data written without the journal (bulk ingestion over a journaled key: point reads return the old value after a reopen), and an item a compaction filter removed or replaced is back in its original form" % len(unguarded)
-            elif unguarded:
-                detail = "a replayed clear is re-executed unconditionally (tree.clear() drops every table): data bulk-ingested AFTER the clear is not in the journal and is wiped by the next reopen"
             else:
-                detail = "the replay guard compares against get_highest_persisted_seqno() — the maximum over the CURRENT tables, which the compaction filter itself lowers when it removes the newest persisted item: that item's journal record is replayed again and the item is back in its original form after a reopen (insert a; insert b; flush; major_compact removes b; reopen -> b is back)"
-            ctx.ob(rule, fn, inst, ok, detail, fn.loc((unguarded or table_derived or ss)[0]))
+                detail = "a replayed clear is re-executed unconditionally (tree.clear() drops every table): data bulk-ingested AFTER the clear is not in the journal and is wiped by the next reopen"
+            ctx.ob(rule, fn, inst, ok, detail, fn.loc((unguarded or ss)[0]))
+            if monotone and kind == "items" and not unguarded:
+                okm = not (table_derived and not refiltered)
+                ctx.ob(rule, fn, "replay-guard-watermark-is-monotone", okm,
+                       "the replay guard's watermark cannot be lowered by compaction" if okm
+                       else "the replay guard compares against get_highest_persisted_seqno() — the maximum over the CURRENT tables, which falls when compaction removes the newest persisted item (a compaction filter's verdict; a last-level compaction evicting a bulk-ingested tombstone together with the value it deletes): that item's journal record is above the watermark again, is replayed, and the item is back after a reopen",
+                       fn.loc(table_derived[0]) if table_derived else "")
         # a cached persisted seqno must be forgotten when a replayed clear drops the keyspace's tables: otherwise the records
         # that follow the clear are still judged "already persisted" and skipped (the tables that vouched for them are gone)
         if "clears" in kinds and sites["clears"]:
@@ -132,7 +136,7 @@ def replay_guard(ctx, rule, kinds=("items", "clears"), monotone=False):
                        "after a replayed clear drops the tables, the cached persisted seqno of that keyspace is dropped too" if (not bad and forgetters)
                        else "the persisted seqno is cached (%s) and NOT invalidated after a replayed clear executed tree.clear(): the records journaled after the clear are judged already persisted by tables that no longer exist, and are lost" % cty,
                        fn.loc(bad[0]) if bad else "")
-    ctx.floor(rule, "journal replay apply sites", n, 6 if "items" in kinds and len(kinds) == 1 else 8)
+    ctx.floor(rule, "journal replay apply sites (%s)" % "+".join(kinds), n, 8 if len(kinds) == 2 else (6 if "items" in kinds else 2))
 
 
 def _reaches_persisted(ctx, fid, _seen=None):
@@ -309,5 +313,10 @@ def run(ctx):
     C10.deletion_guard(ctx, "R-C04.6")
 
 
-    # ---- R-C04.5 replay applies only what the tree has not persisted yet (items and clears; shared with C18: R-C18.3)
-    replay_guard(ctx, "R-C04.5")
+    # ---- R-C04.5 replay applies only what the tree has not persisted yet (items and clears; shared with C18: R-C18.3).
+    # For ITEMS the persisted watermark must be monotone: the maximum over the current tables falls when a last-level
+    # compaction evicts a (bulk-ingested, hence un-journaled) tombstone together with the value it deletes — the value's
+    # record is then above the watermark again and the deleted key comes back after a reopen. (For CLEARS the table-derived
+    # watermark is enough: any table written after the clear keeps it above the clear's seqno.)
+    replay_guard(ctx, "R-C04.5", kinds=("items",), monotone=True)
+    replay_guard(ctx, "R-C04.5", kinds=("clears",))
